@@ -70,6 +70,12 @@ def cases(tier, seed):
             # a declining epidemic sampled at the present only, conditioned on having survived: the survival probability is small
             # (1e-10 .. 1e-300), its logarithm is an ordinary number
             out[-1].update(sampling="contemp", survival=True, subcritical=True, fast=float([3.0, 8.0, 20.0, 60.0][(i // 5) % 4]))
+    for i in range({"quick": 16, "thorough": 120}[tier]):
+        out.append({"sub": "ode", "n": int(rng.choice([5, 10, 20])), "sampling": "contemp", "m": int(rng.choice([2, 3])), "boundaries": "default", "rho_interior": False, "r": "none",
+                    "survival": bool(i % 2), "route": str(rng.choice(["json", "direct"])), "seed": int(rng.integers(2**31)), "boom_bust": float([20.0, 60.0, 150.0, 400.0][i % 4])})
+    for i in range({"quick": 12, "thorough": 60}[tier]):
+        out.append({"sub": "ode", "n": int(rng.choice([3, 6, 12])), "sampling": "contemp", "m": int(rng.choice([1, 1, 3])), "boundaries": "default", "rho_interior": False, "r": "none",
+                    "survival": bool(i % 2), "route": str(rng.choice(["json", "direct"])), "seed": int(rng.integers(2**31)), "critical": float([0.0, 1e-12, -1e-10, 1e-8][i % 4])})
     return out
 
 
@@ -139,6 +145,16 @@ def build(case):
     if case.get("subcritical"):
         R = np.full(m, float(rng.uniform(0.5, 0.95)))
         s = np.zeros(m)
+    if case.get("boom_bust"):
+        # an epidemic that grew and has been declining since (R above one in the older epochs, below one in the most recent), sampled at
+        # the present only with a small probability: by the present the chance of an old lineage to be sampled at all is 1e-10 .. 1e-60
+        R = np.array([0.5] + [float(rng.uniform(1.3, 2.5)) for _ in range(m - 1)])
+        delta = np.full(m, float(case["boom_bust"]) / origin)
+        s = np.zeros(m)
+    if case.get("critical") is not None:
+        # a critical process (births and deaths balance: R = 1, or within 1e-12 of it) without psi-sampling
+        R = np.full(m, 1.0 + float(case["critical"]))
+        s = np.zeros(m)
     rkind = case["r"]
     if rkind == "const":
         rv = np.full(m, float(rng.uniform(0.05, 1.0)))
@@ -153,12 +169,14 @@ def build(case):
         rho[0] = float(rng.uniform(0.05, 1.0))
     if rho_h is not None:
         rho[b.index(rho_h)] = float(rng.uniform(0.1, 0.9))
+    if case.get("boom_bust"):
+        rho[0] = float(10.0 ** rng.uniform(-4, -2))
     if case["sampling"] == "mixed" and m >= 2 and rho[0] > 0 and rv is None and case["seed"] % 3 == 0 and not any(0 < t <= b[1] for t in th):
         # no psi-sampling in the most recent epoch (its only samples are the rho-sampled tips at the present): s = 0 there, a usual set-up
         s = np.array(s, dtype=float)
         s[0] = 0.0
     return {"tip_heights": th, "root": root, "internal": ih, "origin": origin, "b": b, "R": R.tolist(), "delta": delta.tolist(), "s": s.tolist(),
-            "r": None if rv is None else rv.tolist(), "rho": rho, "names": names, "topo": topo, "rho_h": rho_h, "m": m, "style": style, "short_rho": case["seed"] % 2 == 0}
+            "r": None if rv is None else rv.tolist(), "rho": rho, "names": names, "topo": topo, "rho_h": rho_h, "m": m, "style": style, "short_rho": case["seed"] % 2 == 0, "stiff": bool(case.get("boom_bust"))}
 
 
 def rates(d):
@@ -178,9 +196,9 @@ def rates(d):
     return lam, mu, psi
 
 
-def oracle(d, survival):
+def oracle(d, survival, rtol=None):
     lam, mu, psi = rates(d)
-    sky = bd.Skyline(d["b"], lam, mu, psi, d["rho"], d["r"])
+    sky = bd.Skyline(d["b"], lam, mu, psi, d["rho"], d["r"], rtol=rtol or (3e-14 if d.get("stiff") else 1e-12))
     val = bd.tree_log_density(d["root"], sky, survival)
     n = len(d["tip_heights"])
     const = (n - 1) * math.log(2.0) if d["r"] is not None else 0.0
@@ -334,8 +352,16 @@ def _run_case(case):
         return {"violations": V, "counters": C, "fingerprint": "fast|%d" % case["seed"], "sample": None}
     if case["sub"] in ("ode", "single"):
         ref = oracle(d, surv)
-        if d["m"] == 1 and d["rho_h"] is None:
-            lam, mu, psi = rates(d)
+        if d.get("stiff"):
+            # rate x time of 20..400 per epoch amplifies the integration error of the oracle: it is believed only where two tolerances agree
+            ref2 = oracle(d, surv, rtol=1e-12)
+            if not (np.isfinite(ref) and np.isfinite(ref2)) or abs(ref - ref2) > 3e-6 * max(1.0, abs(ref)):
+                C["oracle_not_converged_not_judged"] = C.get("oracle_not_converged_not_judged", 0) + 1
+                return {"violations": V, "counters": C, "fingerprint": None, "sample": None}
+            C["stiff_cases_judged"] = C.get("stiff_cases_judged", 0) + 1
+        lam, mu, psi = rates(d)
+        exactly_critical = any(l_ == m_ and p_ == 0 for l_, m_, p_ in zip(lam, mu, psi))  # (the closed form of the oracle divides by A too: master equations only)
+        if d["m"] == 1 and d["rho_h"] is None and not exactly_critical:
             cf = bd.single_epoch_log_density(d["tip_heights"], d["internal"], d["origin"], lam[0], mu[0], psi[0], d["rho"][0],
                                              None if d["r"] is None else d["r"][0], surv)
             cf += (n - 1) * math.log(2.0) if d["r"] is not None else 0.0
@@ -344,7 +370,19 @@ def _run_case(case):
                 raise RuntimeError("oracle disagreement: closed form %r vs ODE %r" % (cf, ref))
         x = lib_value()
         C["ode_comparisons"] += 1
-        if not np.isfinite(x) or abs(x - ref) > 1e-6 * max(1.0, abs(ref)):
+        # mechanism: A = sqrt((lambda - mu - psi)^2 + 4 lambda psi) is zero or next to zero in some epoch - a critical or nearly critical
+        # process without psi-sampling - and the closed form divides by it
+        lam_, mu_, psi_ = rates(d)
+        near_critical = any(math.sqrt((l_ - m_ - p_) ** 2 + 4.0 * l_ * p_) < 1e-5 * (l_ + m_ + p_) for l_, m_, p_ in zip(lam_, mu_, psi_))
+        if near_critical:
+            C["nearly_critical_processes"] = C.get("nearly_critical_processes", 0) + 1
+            if not np.isfinite(x) or abs(x - ref) > 1e-6 * max(1.0, abs(ref)):
+                V.append(tt.viol("C09:nearly-critical-process-without-psi-sampling:%s" % ("not-finite" if not np.isfinite(x) else "inaccurate"),
+                                 "lambda = mu (to within 1e-5) and psi = 0 in some epoch: log density %.12g, master-equation integration %.12g (n=%d, %d epochs, R - 1 = %g)" % (x, ref, n, d["m"], case.get("critical", float("nan"))), **detail))
+            return {"violations": V, "counters": C, "fingerprint": "|".join(map(str, (case["sub"], n, d["m"], feat, case["seed"]))), "sample": None}
+        # (rate x time of 20..400 per epoch amplifies the integration error of the oracle: tolerance 1e-12 moves its value by 1e-6,
+        # 3e-14 - used for these cases - is the best double precision gives; judged to 1e-5)
+        if not np.isfinite(x) or abs(x - ref) > (1e-5 if d.get("stiff") else 1e-6) * max(1.0, abs(ref)):
             V.append(tt.viol("C09:ode:%s:%s" % (feat, d["style"] if d["m"] > 1 else "single-epoch"), "log density %.12g, master-equation integration %.12g (n=%d, %d epochs, %s, route %s)" % (x, ref, n, d["m"], feat, case["route"]), **detail))
         if d["m"] == 1 and d["rho_h"] is None:
             C["closed_form_comparisons"] += 1
